@@ -694,6 +694,19 @@ func execGroupKeyQueries(d *xdb, r *hx.Rng) {
 	for _, gb := range [][]string{{"s1", "s2"}, {"s2", "s1"}, {"s1", "n"}, {"n", "s1"}, {"s1", "s2", "n"}, {"s1"}, {"n"}, {"n", "v"}} {
 		d.query("SELECT "+strings.Join(gb, ", ")+", count(*), count(v) FROM g1 GROUP BY "+strings.Join(gb, ", "), "exact", "agg-keys")
 	}
+	// AVG over BIGINT values beyond 2^53 and sums beyond 2^63 (groups chosen so that the row-by-row
+	// rounding of the code and the true mean agree: one value, or equal values)
+	big := xtable{name: "big1", cols: []xcol{{"k", "int"}, {"v", "bigint"}}}
+	for k, vs := range [][]int64{{9007199254740993}, {4611686018427387904, 4611686018427387904}, {9223372036854775807, 9223372036854775807, 9223372036854775807},
+		{-9223372036854775808, -9223372036854775808}, {-9007199254740993}, {9223372036854775806, 9223372036854775806, 9223372036854775806, 9223372036854775806}} {
+		for _, v := range vs {
+			big.rows = append(big.rows, []interface{}{int64(k), v})
+		}
+	}
+	d.load(big)
+	d.query("SELECT k, avg(v), count(*) FROM big1 GROUP BY k", "exact", "agg-big")
+	d.query("SELECT avg(v) FROM big1 WHERE k = 0", "exact", "agg-big")
+	d.query("SELECT avg(v) FROM big1 WHERE k = 2", "exact", "agg-big")
 	// GROUP BY without an aggregate in the select list still groups: one row per distinct key
 	for _, gb := range [][]string{{"s1"}, {"n"}, {"s1", "s2"}, {"n", "v"}, {"s2", "n"}} {
 		d.query("SELECT "+strings.Join(gb, ", ")+" FROM g1 GROUP BY "+strings.Join(gb, ", "), "exact", "group-no-agg")
